@@ -2017,7 +2017,19 @@ class Transport(threading.Thread, ClosingContextManager):
         self._expected_packet = tuple(ptypes)
 
     def _verify_key(self, host_key, sig):
-        key = self._key_info[self.host_key_type](Message(host_key))
+        # Both blobs come from the (not yet authenticated) server; whatever
+        # the key classes or the crypto library think of malformed ones, to
+        # the caller this is a failed key exchange.
+        try:
+            key = self._key_info[self.host_key_type](Message(host_key))
+        except SSHException:
+            raise
+        except Exception as e:
+            raise SSHException(
+                "Invalid {} host key from server: {!r}".format(
+                    self.host_key_type, e
+                )
+            ) from e
         if key is None:
             raise SSHException("Unknown host key type")
         # The signature must be made with the algorithm that was negotiated
@@ -2029,7 +2041,17 @@ class Transport(threading.Thread, ClosingContextManager):
                 "Host key signature does not use the negotiated algorithm "
                 "({})".format(expected)
             )
-        if not key.verify_ssh_sig(self.H, Message(sig)):
+        try:
+            verified = key.verify_ssh_sig(self.H, Message(sig))
+        except SSHException:
+            raise
+        except Exception as e:
+            raise SSHException(
+                "Invalid {} signature from server: {!r}".format(
+                    self.host_key_type, e
+                )
+            ) from e
+        if not verified:
             raise SSHException(
                 "Signature verification ({}) failed.".format(
                     self.host_key_type
